@@ -208,6 +208,11 @@ func F4c(maxOps int, yield func(Program)) {
 		func(k int64) *N { return Inc("x", "++") },
 		func(k int64) *N { return Assign(Id("x"), "+=", Int(k)) },
 		func(k int64) *N { return Var("y", Id("x")) },
+		// the enclosing function has a second local z: multi-target assignments to both captured
+		// variables, in either order (which of them the closure mentions first decides their cell order)
+		func(k int64) *N { return MultiSet([]string{"x", "z"}, List(Id("z"), Id("x"))) },
+		func(k int64) *N { return MultiSet([]string{"z", "x"}, List(Int(k), Id("z"))) },
+		func(k int64) *N { return emitE(Id("z")) },
 	}
 	const slots = 7
 	build := func(fill map[int]*N) Program {
@@ -228,7 +233,7 @@ func F4c(maxOps int, yield func(Program)) {
 		blk := If(Bool(true), cat(s(2), []*N{deep}, s(4)), nil)
 		loop := ForRange("i", Int(2), cat(s(5), []*N{emitN(105)})...)
 		g := FuncDecl("g", nil, cat(s(0), s(1), []*N{blk, loop}, s(6), []*N{emitN(106)})...)
-		f := FuncDecl("f", nil, Var("x", Int(1)), g, Expr(callE("g")), emitE(Id("x")), Expr(callE("g")), emitE(Id("x")), Return(Id("x")))
+		f := FuncDecl("f", nil, Var("x", Int(1)), Var("z", Int(5)), g, Expr(callE("g")), emitE(List(Id("x"), Id("z"))), Expr(callE("g")), emitE(List(Id("x"), Id("z"))), Return(Id("x")))
 		return Program{Fam: "F4c", Prog: []*N{f, Expr(callE("f"))}}
 	}
 	var rec func(start, left int, fill map[int]*N)
@@ -516,6 +521,16 @@ func F6(yield func(Program)) {
 			body := append([]*N{}, CloneBlock(cur)...)
 			yield(prog("F6defer", []string{"l"}, Var("l", List()), FuncDecl("note", P("k"), emitE(Bin("*", Id("k"), Int(10)))),
 				FuncDecl("f", nil, append(body, emitN(0), Return(Int(5)))...), Expr(List(callE("f"), Id("l")))))
+			// the same with the return inside a range loop and inside a switch case, the call used as
+			// the second operand of an addition and repeated
+			body3 := append([]*N{}, CloneBlock(cur)...)
+			yield(prog("F6defer", []string{"l"}, Var("l", List()), FuncDecl("note", P("k"), emitE(Bin("*", Id("k"), Int(10)))),
+				FuncDecl("f", nil, append(body3, ForRange("i", Int(3), If(Bin("==", Id("i"), Int(1)), []*N{Return(Int(7))}, nil)), Return(Int(9)))...),
+				Expr(List(Bin("+", Int(100), callE("f")), Bin("+", Int(200), callE("f")), Id("l")))))
+			body4 := append([]*N{}, CloneBlock(cur)...)
+			yield(prog("F6defer", []string{"l"}, Var("l", List()), FuncDecl("note", P("k"), emitE(Bin("*", Id("k"), Int(10)))),
+				FuncDecl("f", P("a"), append(body4, Switch(Id("a"), Case{Vals: []*N{Int(1)}, Body: []*N{Return(Int(8))}}, Case{Default: true, Body: []*N{emitN(3)}}), Return(Int(9)))...),
+				Expr(List(Bin("+", Int(100), callE("f", Int(1))), Bin("+", Int(200), callE("f", Int(2))), Id("l")))))
 			body2 := append([]*N{}, CloneBlock(cur)...)
 			yield(prog("F6defer", []string{"l"}, Var("l", List()), FuncDecl("note", P("k"), emitE(Bin("*", Id("k"), Int(10)))),
 				FuncDecl("f", nil, append(body2, emitN(0), Expr(Index(List(), Int(3))))...), Expr(List(callE("try", Id("f"), Int(-1)), Id("l")))))
